@@ -359,6 +359,33 @@ def discharge(b, i, kind, detail, t, defs, cmps, dom):
             klen = ('call', 'len', root_recv(b, t['args'][0], defs))
             if guarded_by_cmp(b, i, klen, ci + 1, defs, cmps, dom) is not None:
                 return 'T2-len-guard'
+    if kind == 'call' and detail.startswith('index[') and len(t['args']) > 1:
+        # constant range / index into a fixed-size array `[T; N]` (receiver type or impl self type): bounds <= N
+        tys = [t['f'].get('selfty') or '']
+        a0 = t['args'][0]
+        if 'l' in a0:
+            tys.append(b.r['locals'][a0['l']]['ty'])
+            k0, v0 = resolve_value(b, a0, defs)
+            if k0 == 'rv' and v0['k'] == 'ref' and 'l' in v0['p'] and not [x for x in v0['p']['pr'] if x != '*']:
+                tys.append(b.r['locals'][v0['p']['l']]['ty'])
+        n_arr = None
+        for ty in tys:
+            m = re.match(r"^&?(?:'\w+ )?(?:mut )?\[[^;\]]+; (\d+)\]$", ty or '')
+            if m:
+                n_arr = int(m.group(1))
+        if n_arr is not None:
+            k2, v2 = resolve_value(b, t['args'][1], defs)
+            bounds = None
+            if k2 == 'const':
+                bounds = [v2 + 1]
+            elif k2 == 'rv' and v2['k'] == 'agg':
+                cs = [resolve_value(b, o, defs) for o in v2['o']]
+                if cs and all(c[0] == 'const' for c in cs):
+                    bounds = [c[1] for c in cs]
+                    if 'Inclusive' in str(v2.get('adt', '')):
+                        bounds = [x + 1 for x in bounds]
+            if bounds is not None and max(bounds) <= n_arr and bounds == sorted(bounds):
+                return 'T1-const-range-on-array'
     if kind == 'call':
         if detail.startswith('index[') or detail in ('split_at', 'split_at_mut', 'split_to', 'split_off', 'advance', 'truncate', 'copy_to_slice'):
             # bound derived from min(.., len) or from a length of the same buffer
